@@ -170,11 +170,18 @@ var verifOpPairs = [][2]Operator{
 // Matches/MatchesNot, MatchesAny/MatchesNone, Exists/NotExist evaluate to
 // exact negations of each other; Exists is exactly "the key resolves".
 func VerifC19Duality() {
-	subj := verifNewSubject(verifParam("vlen", 2))
 	var keys []string
-	keys = append(keys, verifValidKeys[:verifParam("validKeys", len(verifValidKeys))]...)
+	nvalid := verifParam("validKeys", len(verifValidKeys))
+	keys = append(keys, verifValidKeys[:nvalid]...)
 	keys = append(keys, verifJointKeys[:verifParam("jointKeys", len(verifJointKeys))]...)
-	key := keys[verifChoice("key", len(keys))]
+	k := verifChoice("key", len(keys))
+	key := keys[k]
+	// the value of a joint key is several scalars long: shorter scalars
+	vlen := verifParam("vlen", 2)
+	if k >= nvalid {
+		vlen = verifParam("jvlen", 1)
+	}
+	subj := verifNewSubject(vlen)
 	pair := verifChoice("pair", 5)
 	nvals := 0
 	switch pair {
